@@ -416,6 +416,11 @@ bool cf_set_int(struct CfValue *cv, const char *value)
 			errno = EINVAL;
 		return false;
 	}
+	/* reject what does not fit into int */
+	if (errno == ERANGE || val < INT_MIN || val > INT_MAX) {
+		errno = ERANGE;
+		return false;
+	}
 	*ptr = val;
 	return true;
 }
@@ -432,6 +437,11 @@ bool cf_set_uint(struct CfValue *cv, const char *value)
 		/* reject partial parse */
 		if (!errno)
 			errno = EINVAL;
+		return false;
+	}
+	/* reject what does not fit into unsigned int; strtoul() negates after a minus sign */
+	if (errno == ERANGE || val > UINT_MAX || (val != 0 && strchr(value, '-') != NULL)) {
+		errno = ERANGE;
 		return false;
 	}
 	*ptr = val;
